@@ -948,6 +948,101 @@ Proof.
   eapply same_rr_trans; [exact G|apply same_rr_set_primary].
 Qed.
 
+Lemma all_vias_sel hs hs' : sel (s2b "Via") hs' = sel (s2b "Via") hs -> all_vias hs' = all_vias hs.
+Proof. unfold all_vias. intros ->. reflexivity. Qed.
+Lemma all_rr_sel hs hs' : sel (s2b "Record-Route") hs' = sel (s2b "Record-Route") hs -> all_rr hs' = all_rr hs.
+Proof. unfold all_rr. intros ->. reflexivity. Qed.
+
+(* decoding the first Via header in place does not change the flattened list *)
+Lemma all_vias_get_via m : all_vias (m_headers (fst (s_get_via m))) = all_vias (m_headers m).
+Proof.
+  unfold s_get_via, typed_get. rewrite get_header_sel.
+  destruct (sel (s2b "Via") (m_headers m)) as [|h r] eqn:S; [reflexivity|]. cbn [hd_error].
+  destruct (h_val h) eqn:V; try reflexivity.
+  destruct (parse_via s) as [l| |] eqn:P; try reflexivity.
+  cbn [fst set_val with_headers m_headers]. unfold all_vias. rewrite sel_update_same, S.
+  cbn [flat_map h_val dec_via]. rewrite V. cbn [dec_via]. rewrite P. reflexivity.
+Qed.
+
+Lemma all_vias_client_transaction m :
+  all_vias (m_headers (fst (mtry s_client_transaction m))) = all_vias (m_headers m).
+Proof.
+  unfold mtry, s_client_transaction, mbind.
+  pose proof (mframe_get_cseq _ dj_Via_CSeq m) as F.
+  destruct (s_get_cseq m) as [m1 r1]. cbn [fst] in F.
+  assert (E1 : all_vias (m_headers m1) = all_vias (m_headers m)) by (apply all_vias_sel, F).
+  destruct r1 as [c| |]; try exact E1.
+  unfold s_top_via, mbind. pose proof (all_vias_get_via m1) as E2.
+  destruct (s_get_via m1) as [m2 r2]. cbn [fst] in E2. rewrite <- E1, <- E2.
+  destruct r2 as [[|v l]| |]; try reflexivity. cbn. destruct (via_get_branch v); reflexivity.
+Qed.
+
+
+(* ---- what happens to the Via stack before routing: every entry beneath the top one is
+   untouched; the top one keeps its sent-by (only received / rport parameters may be set) ---- *)
+Definition sent_by (v : via_param) : bytes * bytes * bytes * bytes * Z :=
+  (v_name v, v_version v, v_transport v, v_host v, v_port v).
+Definition via_rel (m m' : message) : Prop :=
+  tl (all_vias (m_headers m')) = tl (all_vias (m_headers m)) /\
+  option_map sent_by (hd_error (all_vias (m_headers m'))) = option_map sent_by (hd_error (all_vias (m_headers m))).
+Lemma via_rel_refl m : via_rel m m. Proof. split; reflexivity. Qed.
+Lemma via_rel_trans m1 m2 m3 : via_rel m1 m2 -> via_rel m2 m3 -> via_rel m1 m3.
+Proof. intros (A & B) (A' & B'). split; congruence. Qed.
+Lemma via_rel_eq m m' : all_vias (m_headers m') = all_vias (m_headers m) -> via_rel m m'.
+Proof. intros E. unfold via_rel. rewrite E. split; reflexivity. Qed.
+Lemma via_rel_frame m m' : frame (s2b "Via") m m' -> via_rel m m'.
+Proof. intros (S & _). apply via_rel_eq, all_vias_sel, S. Qed.
+
+Lemma decode_all_vias_all_vias hs : all_vias (fst (decode_all_vias hs)) = all_vias hs.
+Proof.
+  unfold all_vias. induction hs as [|h r IH]; [reflexivity|]. cbn [decode_all_vias].
+  destruct (decode_all_vias r) as [r' vs]. cbn [fst] in IH.
+  destruct (same_header (h_name h) (s2b "Via")) eqn:E.
+  - set (VF := fun h : header => match dec_via (h_val h) with Some l => l | None => [] end) in *.
+    assert (K0 : flat_map VF (sel (s2b "Via") (h :: r')) = flat_map VF (sel (s2b "Via") (h :: r))).
+    { cbn [sel filter]. rewrite E. cbn [flat_map]. f_equal. exact IH. }
+    destruct (h_val h) eqn:V; try exact K0. destruct (parse_via s) as [l| |] eqn:P; try exact K0.
+    cbn [fst sel filter h_name]. rewrite E. cbn [flat_map]. unfold VF at 1 3. cbn [h_val dec_via]. rewrite V.
+    cbn [dec_via]. rewrite P. f_equal. exact IH.
+  - cbn [fst sel filter]. rewrite E. exact IH.
+Qed.
+
+Lemma s_get_via_norm m :
+  match snd (s_get_via m) with
+  | Ok l => exists n rest, sel (s2b "Via") (m_headers (fst (s_get_via m))) = {| h_name := n; h_val := HVia l |} :: rest
+  | _ => fst (s_get_via m) = m
+  end.
+Proof.
+  unfold s_get_via, typed_get. rewrite get_header_sel.
+  destruct (sel (s2b "Via") (m_headers m)) as [|h r] eqn:S; [reflexivity|]. cbn [hd_error].
+  destruct (h_val h) eqn:V; try reflexivity.
+  - destruct (parse_via s) as [l| |] eqn:P; try reflexivity. cbn [fst snd set_val with_headers m_headers].
+    rewrite sel_update_same, S. eexists _, _. reflexivity.
+  - cbn [fst snd]. exists (h_name h), r. rewrite S. destruct h as [n v]. cbn in *. subst v. reflexivity.
+Qed.
+
+Lemma via_rel_set_received peer port m : via_rel m (fst (s_set_received peer port m)).
+Proof.
+  unfold s_set_received, mbind. pose proof (s_get_via_norm m) as N. pose proof (all_vias_get_via m) as A.
+  destruct (s_get_via m) as [m1 r]. cbn [fst snd] in N, A. destruct r as [l| |]; cbn [fst]; try (apply via_rel_eq; exact A).
+  destruct l as [|v rest]; [apply via_rel_eq; exact A|]. destruct N as (n & hs & S).
+  unfold mmodify. cbn [fst]. unfold via_rel. rewrite <- A. unfold all_vias at 1 3.
+  cbn [set_val with_headers m_headers]. rewrite sel_update_same. unfold all_vias. rewrite S.
+  cbn [flat_map h_val dec_via app tl hd_error option_map]. split; [reflexivity|].
+  destruct (kv_has _ _); reflexivity.
+Qed.
+
+Lemma via_rel_top_via m : via_rel m (fst (s_top_via m)).
+Proof.
+  unfold s_top_via, mbind. pose proof (all_vias_get_via m) as A. destruct (s_get_via m) as [m1 r]. cbn [fst] in A.
+  destruct r as [[|v l]| |]; apply via_rel_eq; exact A.
+Qed.
+Lemma via_rel_next_response_hop m : via_rel m (fst (mtry next_response_hop m)).
+Proof.
+  unfold mtry, next_response_hop, mbind. pose proof (via_rel_top_via m) as A. destruct (s_top_via m) as [m1 r]. cbn [fst] in A.
+  destruct r as [v| |]; try exact A. destruct (via_get_received v); exact A.
+Qed.
+
 Lemma mframe_get_route nm : disjoint_names nm (s2b "Route") -> mframe nm s_get_route.
 Proof. intros D. apply mframe_typed_get. exact D. Qed.
 Lemma mframe_pop_route nm : disjoint_names nm (s2b "Route") -> mframe nm s_pop_route.
@@ -1016,35 +1111,6 @@ Proof.
 Qed.
 
 (* ------------------------------------------------------------------ f (cont.) where the Via / Record-Route come from *)
-Lemma all_vias_sel hs hs' : sel (s2b "Via") hs' = sel (s2b "Via") hs -> all_vias hs' = all_vias hs.
-Proof. unfold all_vias. intros ->. reflexivity. Qed.
-Lemma all_rr_sel hs hs' : sel (s2b "Record-Route") hs' = sel (s2b "Record-Route") hs -> all_rr hs' = all_rr hs.
-Proof. unfold all_rr. intros ->. reflexivity. Qed.
-
-(* decoding the first Via header in place does not change the flattened list *)
-Lemma all_vias_get_via m : all_vias (m_headers (fst (s_get_via m))) = all_vias (m_headers m).
-Proof.
-  unfold s_get_via, typed_get. rewrite get_header_sel.
-  destruct (sel (s2b "Via") (m_headers m)) as [|h r] eqn:S; [reflexivity|]. cbn [hd_error].
-  destruct (h_val h) eqn:V; try reflexivity.
-  destruct (parse_via s) as [l| |] eqn:P; try reflexivity.
-  cbn [fst set_val with_headers m_headers]. unfold all_vias. rewrite sel_update_same, S.
-  cbn [flat_map h_val dec_via]. rewrite V. cbn [dec_via]. rewrite P. reflexivity.
-Qed.
-
-Lemma all_vias_client_transaction m :
-  all_vias (m_headers (fst (mtry s_client_transaction m))) = all_vias (m_headers m).
-Proof.
-  unfold mtry, s_client_transaction, mbind.
-  pose proof (mframe_get_cseq _ dj_Via_CSeq m) as F.
-  destruct (s_get_cseq m) as [m1 r1]. cbn [fst] in F.
-  assert (E1 : all_vias (m_headers m1) = all_vias (m_headers m)) by (apply all_vias_sel, F).
-  destruct r1 as [c| |]; try exact E1.
-  unfold s_top_via, mbind. pose proof (all_vias_get_via m1) as E2.
-  destruct (s_get_via m1) as [m2 r2]. cbn [fst] in E2. rewrite <- E1, <- E2.
-  destruct r2 as [[|v l]| |]; try reflexivity. cbn. destruct (via_get_branch v); reflexivity.
-Qed.
-
 Lemma has_header_frame nm m m' : frame nm m m' -> has_header nm m' = has_header nm m.
 Proof. intros (S & _). rewrite !has_header_sel, S. reflexivity. Qed.
 
